@@ -349,22 +349,30 @@ Section IDX.
     forallb (fun r => forallb (fun k => match lookup k r with Some _ => true | None => false end) ["trace_id"; "span_id"]) (map irow_row l) = true.
   Proof. apply forallb_forall. intros r Hr. apply in_map_iff in Hr. destruct Hr as [x [<- _]]. reflexivity. Qed.
 
-  Theorem index_search_bridge rec cte :
-    eval_body re_match parse_float hash64 tables rec cte false stmt1 = Some (map mspan_row sql_spans).
+  (* the statement with any WHERE expression wh that evaluates, on every index row, to the boolean wp *)
+  Definition stmt_w (wh : expr) : select :=
+    Sel [] false cols1 (Some (Col (Id (attrs_table c)) "traces_idx")) [] None (Some wh) (Some having1)
+        [Id "trace_id"; Id "span_id"] [Ord (Id "timestamp_ns") true] None.
+  Definition spans_w (wp : irow -> bool) : list mspan :=
+    map mk_mspan (filter (fun g => csem terms g cd) (group_rows same_span (filter wp d))).
+
+  Theorem bridge_w rec cte wh wp :
+    (forall r, EVW cte al_where [] ev_fuel false "" [] (irow_row r) wh = Some (vbool (wp r))) ->
+    eval_body re_match parse_float hash64 tables rec cte false (stmt_w wh) = Some (map mspan_row (spans_w wp)).
   Proof.
-    unfold eval_body, stmt1. cbv beta iota. unfold stage_with. cbv beta iota.
+    intros Hwh. unfold eval_body, stmt_w. cbv beta iota. unfold stage_with. cbv beta iota.
     assert (Hfrom : stage_joins re_match parse_float hash64 cte [] (stage_from tables rec cte (Some (Col (Id (attrs_table c)) "traces_idx")))
                     = Some (map irow_row d)).
     { unfold stage_joins, stage_from, tables. cbn [fold_left env_get]. rewrite String.eqb_refl, map_map. reflexivity. }
     rewrite Hfrom.
-    assert (Hwhere : stage_where re_match parse_float hash64 cte cols1 (Some where1) (map irow_row d)
-                     = Some (map irow_row (filter where_sem d))).
-    { unfold stage_where. apply keep_true_map. intros r _. apply where1_eval. }
+    assert (Hwhere : stage_where re_match parse_float hash64 cte cols1 (Some wh) (map irow_row d)
+                     = Some (map irow_row (filter wp d))).
+    { unfold stage_where. apply keep_true_map. intros r _. apply Hwh. }
     rewrite Hwhere, names_cols1. cbn [map all_some].
     unfold stage_group. rewrite rows_have_keys. cbn [negb].
     rewrite (group_rows_map irow_row same_span _ eq_keys_span).
     fold al_group.
-    set (W := filter where_sem d).
+    set (W := filter wp d).
     assert (Hne : forall grp, In grp (group_rows same_span W) -> grp <> [])
       by (intros grp; apply (group_nonempty same_span same_span_refl same_span_sym same_span_trans)).
     destruct al_group_facts as [Ak [Av Ad]].
@@ -376,9 +384,176 @@ Section IDX.
       apply (having_value re_match parse_float hash64 cte al_group ["trace_id"; "span_id"] Ak Av Ad e conds Hkeys Hconds Hlits Hlen al_group_bs
                           ev_fuel (r0 :: rest) (irow_row r0)).
       unfold ev_fuel. pose proof Hdepth. fold cd. lia. }
-    rewrite Hkept. unfold sql_spans. fold W. rewrite !map_map.
+    rewrite Hkept. unfold spans_w. fold W. rewrite !map_map.
     apply (all_some_map_ext _ (fun grp => mspan_row (mk_mspan grp))). intros grp Hg. apply filter_In in Hg. destruct Hg as [Hg _].
     destruct grp as [|r0 rest]; [exfalso; now apply (Hne [] Hg)|].
     apply out_row_group.
   Qed.
+
+  Theorem index_search_bridge rec cte :
+    eval_body re_match parse_float hash64 tables rec cte false stmt1 = Some (map mspan_row sql_spans).
+  Proof. exact (bridge_w rec cte where1 where_sem (where1_eval cte)). Qed.
+
+  (* ---------- one portion of a complex request: cityHash64(trace_id) % Max == I  [OR trace_id IN (cached ids)] ---------- *)
+  Definition in_portion_g (t : string) : bool :=
+    Z.eqb (rf_max c) 0 || Z.eqb (Z.modulo (hash64 t) (rf_max c)) (rf_i c) || existsb (String.eqb t) (cached c).
+  (* the number of portions as the statement prints it reads back as itself (computed on every case; string_of_Z / parse_dec round trip) *)
+  Definition rf_ok : bool :=
+    Z.ltb 0 (rf_max c)
+    && match parse_dec (string_of_Z (rf_max c)) with
+       | Some dd => Nat.eqb (d_flen dd) 0 && Z.eqb (Z.of_N (d_int dd)) (rf_max c)
+       | None => false end.
+  Definition visible : db := filter (fun r => in_portion_g (r_trace r)) d.
+
+  Lemma attr_condition_gen n :
+    attr_condition c terms (Some cd) attr n = Ok (match random_filter c with [] => stmt1 | f => and_where f stmt1 end).
+  Proof.
+    unfold attr_condition. rewrite Hconds. cbn [bind].
+    unfold stmt1, where1, having1, cols1, with_where, wh_list, agg_cols, where_terms.
+    destruct (get_cond conds cd false) as [having a'] eqn:Eg. cbn [fst].
+    destruct (agg_step attr) as [extra aggcol] eqn:Ea. cbn [fst snd].
+    set (wh := map snd (filter (fun p => is_indexed_label (a_label (fst p))) (combine terms conds)) ++ extra).
+    unfold init_index.
+    destruct aggcol as [col|]; destruct wh as [|w0 wr]; destruct (random_filter c); try reflexivity;
+      destruct (holds_without_indexed terms cd); reflexivity.
+  Qed.
+
+  Lemma lookup_trace r : lookup "trace_id" (irow_row r) = Some (VStr (r_trace r)). Proof. reflexivity. Qed.
+
+  Section RF.
+    Hypothesis Hok : rf_ok = true.
+    Variable cte : env.
+    Notation EV := (ev re_match parse_float hash64 cte al_where []).
+
+    Lemma al_where_trace : lookup_alias "trace_id" al_where = Some (Id "trace_id").
+    Proof. rewrite col_aliases_cols1. reflexivity. Qed.
+
+    Lemma ev_hash f self g r :
+      EV (S (S (S (S f)))) false self g (irow_row r)
+         (LOp OEq [Bin BMod (Fn FCityHash64 [Id "trace_id"]) (NumLit (string_of_Z (rf_max c))); IntV (rf_i c)])
+      = Some (vbool (Z.eqb (Z.modulo (hash64 (r_trace r)) (rf_max c)) (rf_i c))).
+    Proof.
+      clear Hrf. unfold rf_ok in Hok. apply andb_true_iff in Hok. destruct Hok as [Hpos Hp].
+      destruct (parse_dec (string_of_Z (rf_max c))) as [dd|] eqn:Ed; [|discriminate]. apply andb_true_iff in Hp. destruct Hp as [Hfl Hin].
+      apply Nat.eqb_eq in Hfl. apply Z.eqb_eq in Hin. apply Z.ltb_lt in Hpos.
+      assert (Htr : EV (S f) false self g (irow_row r) (Id "trace_id") = Some (VStr (r_trace r))).
+      { rewrite ev_Id_row. destruct (String.eqb "trace_id" self); [apply lookup_trace|]. rewrite al_where_trace, String.eqb_refl. apply lookup_trace. }
+      assert (Hh : EV (S (S f)) false self g (irow_row r) (Fn FCityHash64 [Id "trace_id"]) = Some (VInt (hash64 (r_trace r)))).
+      { change (EV (S (S f)) false self g (irow_row r) (Fn FCityHash64 [Id "trace_id"]))
+          with (match EV (S f) false self g (irow_row r) (Id "trace_id") with Some (VStr s0) => Some (VInt (hash64 s0)) | _ => None end).
+        now rewrite Htr. }
+      assert (Hn : EV (S (S f)) false self g (irow_row r) (NumLit (string_of_Z (rf_max c))) = Some (VInt (rf_max c))).
+      { change (EV (S (S f)) false self g (irow_row r) (NumLit (string_of_Z (rf_max c))))
+          with (match parse_dec (string_of_Z (rf_max c)) with
+                | Some d0 => if Nat.eqb (d_flen d0) 0 then Some (VInt (Z.of_N (d_int d0))) else Some (VNum (dec_Q d0)) | None => None end).
+        rewrite Ed, Hfl. cbn [Nat.eqb]. now rewrite Hin. }
+      assert (Hm : EV (S (S (S f))) false self g (irow_row r) (Bin BMod (Fn FCityHash64 [Id "trace_id"]) (NumLit (string_of_Z (rf_max c))))
+                   = Some (VInt (Z.modulo (hash64 (r_trace r)) (rf_max c)))).
+      { change (EV (S (S (S f))) false self g (irow_row r) (Bin BMod (Fn FCityHash64 [Id "trace_id"]) (NumLit (string_of_Z (rf_max c)))))
+          with (match EV (S (S f)) false self g (irow_row r) (Fn FCityHash64 [Id "trace_id"]), EV (S (S f)) false self g (irow_row r) (NumLit (string_of_Z (rf_max c))) with
+                | Some (VInt x), Some (VInt y) => if Z.eqb y 0 then None else Some (VInt (Z.modulo x y))
+                | _, _ => None end).
+        rewrite Hh, Hn. destruct (Z.eqb_spec (rf_max c) 0); [lia|reflexivity]. }
+      change OEq with (lop_of CEq). rewrite (ev_LOp_cmp re_match parse_float hash64 cte al_where [] _ false self g (irow_row r) CEq _ _ eq_refl).
+      rewrite Hm, ev_IntV. rewrite (vcmp_int CEq _ _ eq_refl). reflexivity.
+    Qed.
+
+    Lemma ev_unhex_list f self g r (ids : list string) :
+      all_some (map (fun x => EV (S (S f)) false self g (irow_row r) x) (map (fun t => Fn FUnhex [RawStr t]) ids)) = Some (map VStr ids).
+    Proof. induction ids as [|t ids IH]; [reflexivity|]. cbn [map all_some]. rewrite IH. reflexivity. Qed.
+
+    Lemma ev_InE f agg self g r l rs :
+      EV (S f) agg self g r (InE l rs) =
+      match EV f agg self g r l with
+      | None => None
+      | Some lv =>
+          match rs with
+          | [WRef a] =>
+              match env_get a cte with
+              | Some t =>
+                  Some (vbool (existsb (fun tr => match lv, tr with
+                                                  | VTup xs, _ => veqb (VTup xs) (VTup (map snd tr))
+                                                  | _, (_, v) :: _ => veqb lv v
+                                                  | _, [] => false end) t))
+              | None => None
+              end
+          | _ => match all_some (map (fun x => EV f agg self g r x) rs) with Some vs => Some (vbool (existsb (veqb lv) vs)) | None => None end
+          end
+      end.
+    Proof. reflexivity. Qed.
+
+    Lemma ev_in_ids f self g r (ids : list string) :
+      EV (S (S (S f))) false self g (irow_row r) (InE (Id "trace_id") (map (fun t => Fn FUnhex [RawStr t]) ids))
+      = Some (vbool (existsb (String.eqb (r_trace r)) ids)).
+    Proof.
+      assert (Htr : EV (S (S f)) false self g (irow_row r) (Id "trace_id") = Some (VStr (r_trace r))).
+      { rewrite ev_Id_row. destruct (String.eqb "trace_id" self); [apply lookup_trace|]. rewrite al_where_trace, String.eqb_refl. apply lookup_trace. }
+      assert (Hex : existsb (veqb (VStr (r_trace r))) (map VStr ids) = existsb (String.eqb (r_trace r)) ids).
+      { induction ids as [|t l IH]; [reflexivity|]. cbn [map existsb]. rewrite IH. reflexivity. }
+      rewrite ev_InE, Htr. pose proof (ev_unhex_list f self g r ids) as Hl. destruct ids as [|a l].
+      - reflexivity.
+      - cbn [map] in *. rewrite Hl. cbn [map] in Hex. now rewrite Hex.
+    Qed.
+
+    Lemma ev_rf f self g r x : random_filter c = [x] ->
+      EV (6 + f) false self g (irow_row r) x = Some (vbool (in_portion_g (r_trace r))).
+    Proof.
+      clear Hrf. assert (Hpos : Z.eqb (rf_max c) 0 = false).
+      { unfold rf_ok in Hok. apply andb_true_iff in Hok. destruct Hok as [Hpos _]. apply Z.ltb_lt in Hpos. apply Z.eqb_neq. lia. }
+      unfold random_filter, in_portion_g. rewrite Hpos. cbn [orb]. destruct (cached c) as [|id0 ids] eqn:Ec.
+      - intros E. injection E as <-. change (6 + f) with (S (S (S (S (2 + f))))). rewrite ev_hash. cbn [existsb]. now rewrite orb_false_r.
+      - intros E. injection E as <-. change (6 + f) with (S (S (S (S (S (S f)))))). rewrite ev_LOp.
+        cbn [map]. rewrite ev_hash.
+        change (Fn FUnhex [RawStr id0] :: map (fun t : string => Fn FUnhex [RawStr t]) ids) with (map (fun t : string => Fn FUnhex [RawStr t]) (id0 :: ids)).
+        rewrite (ev_in_ids (S (S f))).
+        cbn [all_some map]. rewrite !truth_vbool. cbn [all_some]. now rewrite or3_2.
+    Qed.
+
+    (* the WHERE of the statement of one portion *)
+    Definition where1p (x : expr) : expr := LOp OAnd ([LOp OAnd (window c)] ++ (if with_where then [LOp OOr wh_list] else []) ++ [x]).
+    Lemma where1p_eval r x : random_filter c = [x] ->
+      EV ev_fuel false "" [] (irow_row r) (where1p x) = Some (vbool (where_sem r && in_portion_g (r_trace r))).
+    Proof.
+      intros Hx. destruct al_where_facts as [Ak [Av [Ad [Adt Ats]]]].
+      unfold where1p, where_sem, ev_fuel, wh_list. change 40%nat with (S 39).
+      rewrite ev_LOp. destruct with_where; cbn [app map].
+      - change 39%nat with (3 + 36)%nat at 1. rewrite (ev_window cte al_where [] Adt Ats).
+        change 39%nat with (6 + 33)%nat.
+        rewrite (ev_where re_match parse_float hash64 cte al_where [] Ak Av Ad 33 "" [] r terms conds attr (map_res_Forall2 _ _ _ Hconds) Hlits).
+        rewrite (ev_rf 33 "" [] r x Hx).
+        cbn [all_some map]. rewrite !truth_vbool. cbn [all_some]. now rewrite and3_3.
+      - change 39%nat with (3 + 36)%nat at 1. rewrite (ev_window cte al_where [] Adt Ats).
+        change 39%nat with (6 + 33)%nat. rewrite (ev_rf 33 "" [] r x Hx).
+        cbn [all_some map]. rewrite !truth_vbool. cbn [all_some]. now rewrite and3_2, andb_true_r.
+    Qed.
+  End RF.
 End IDX.
+
+(* ---------- the statement of one portion over the whole index = the statement without portion filter over the visible rows ---------- *)
+Lemma filter_filter_and {A} (p q : A -> bool) l : filter p (filter q l) = filter (fun x => p x && q x) l.
+Proof. induction l as [|x l IH]; [reflexivity|]. cbn [filter]. destruct (q x); cbn [filter]; rewrite ?IH; destruct (p x); reflexivity. Qed.
+
+Lemma rf_single c : rf_ok c = true -> exists x, random_filter c = [x].
+Proof.
+  unfold rf_ok, random_filter. intros H. apply andb_true_iff in H. destruct H as [H _]. apply Z.ltb_lt in H.
+  destruct (Z.eqb_spec (rf_max c) 0) as [E|E]; [lia|]. destruct (cached c); eexists; reflexivity.
+Qed.
+
+Theorem index_search_bridge_portion re_match parse_float hash64 c d e attr conds :
+  keys_ok e = true -> map_res get_term (fst (snd (analyze_cond e ([], [])))) = Ok conds ->
+  forallb term_lit_ok (fst (snd (analyze_cond e ([], [])))) = true ->
+  (List.length (fst (snd (analyze_cond e ([], [])))) <= 64)%nat -> (cond_depth (fst (analyze_cond e ([], []))) <= 28)%nat ->
+  rf_ok c = true ->
+  forall x, random_filter c = [x] ->
+  forall rec cte,
+  eval_body re_match parse_float hash64 [(attrs_table c, map row_of_irow d)] rec cte false (and_where [x] (stmt1 c e attr conds))
+  = Some (map mspan_row (sql_spans re_match parse_float c (visible hash64 c d) e attr conds)).
+Proof.
+  intros Hkeys Hc Hlits Hlen Hdepth Hok x Hx rec cte.
+  change (and_where [x] (stmt1 c e attr conds)) with (stmt_w c e attr conds (where1p c e attr conds x)).
+  rewrite (bridge_w re_match parse_float hash64 c d e attr conds Hkeys Hc Hlits Hlen Hdepth rec cte (where1p c e attr conds x)
+             (fun r => where_sem re_match parse_float c e attr conds r && in_portion_g hash64 c (r_trace r))).
+  - unfold spans_w, sql_spans, visible. now rewrite filter_filter_and.
+  - intros r. exact (where1p_eval re_match parse_float hash64 c e attr conds Hc Hlits Hlen Hdepth Hok cte r x Hx).
+Qed.
+
